@@ -8,11 +8,18 @@
 (*                                                                         *)
 (* Abstract problem p:                                                     *)
 (*   n     size of the matrices handed to the wrapper                      *)
-(*   cls   cls[i] \in {"null","both","konly"}: amplitude i carries nothing,*)
-(*         stiffness and B, or stiffness only (B column null; lb only)     *)
+(*   cls   cls[i] \in {"null","both","konly","bonly"}: amplitude i carries *)
+(*         nothing, stiffness and B, stiffness only (B column null: an     *)
+(*         unloaded / massless stiff amplitude), or B only (a load / mass  *)
+(*         column on an amplitude without stiffness).  The null patterns   *)
+(*         of K and B may differ in both directions.                       *)
+(*   The reduction the properties describe is by the null pattern of K:    *)
+(*   "active" = carries stiffness (both, konly); modes are zero elsewhere; *)
+(*   stiffness-only amplitudes are condensed, not clamped.                 *)
 (*   sp    the exact spectrum of the pencil (B, K) restricted to the       *)
 (*         active amplitudes, ascending in mu, one entry (id) per active   *)
-(*         amplitude (mu = 0 for every "konly" amplitude)                  *)
+(*         amplitude (mu = 0 for every "konly" amplitude: an infinite      *)
+(*         multiplier / frequency)                                         *)
 (*   s     positive scale applied to B (load / mass scaling): mu_i = s*sp_i*)
 (*   zs    the amplitudes whose B column is not null but sums to zero      *)
 (*         (only the dense frequency path looks at column sums)            *)
@@ -48,12 +55,13 @@ KF_C05_FallbackNumExceedsSize == "KF_C05_FallbackNumExceedsSize"
 KF_C05_PanelNumNotCapped      == "KF_C05_PanelNumNotCapped"
 KF_C05_NonPositiveTail        == "KF_C05_NonPositiveTail"
 KF_C05_ConeCylBucklingMode    == "KF_C05_ConeCylBucklingMode"
+KF_C05_LoadOnStiffnessless    == "KF_C05_LoadOnStiffnessless"
 KF_C06_SparseNumExceedsSize   == "KF_C06_SparseNumExceedsSize"
 KF_C06_ReducedDofScatter      == "KF_C06_ReducedDofScatter"
 KF_C06_RoundedSort            == "KF_C06_RoundedSort"
 KF_C06_DenseColumnSum         == "KF_C06_DenseColumnSum"
 DevC05 == {KF_C05_DenseNumExceedsSize, KF_C05_FallbackNumExceedsSize, KF_C05_PanelNumNotCapped,
-           KF_C05_NonPositiveTail, KF_C05_ConeCylBucklingMode}
+           KF_C05_NonPositiveTail, KF_C05_ConeCylBucklingMode, KF_C05_LoadOnStiffnessless}
 DevC06 == {KF_C06_SparseNumExceedsSize, KF_C06_ReducedDofScatter, KF_C06_RoundedSort, KF_C06_DenseColumnSum}
 DevNames == DevC05 \cup DevC06
 
@@ -65,8 +73,11 @@ VARIABLE st
 vars == <<st>>
 
 (* ------------------------------ problems ------------------------------- *)
-Act(p)  == { i \in 1..p.n : p.cls[i] # "null" }
+Act(p)  == { i \in 1..p.n : p.cls[i] \in {"both", "konly"} }     \* carries stiffness
 Both(p) == { i \in 1..p.n : p.cls[i] = "both" }
+BAct(p) == { i \in 1..p.n : p.cls[i] \in {"both", "bonly"} }     \* B column not null
+BOnly(p) == { i \in 1..p.n : p.cls[i] = "bonly" }
+Nulls(p) == { i \in 1..p.n : p.cls[i] = "null" }
 AscSeq(S, n) == LET f[i \in 0..n] == IF i = 0 THEN <<>>
                                      ELSE IF i \in S THEN Append(f[i-1], i) ELSE f[i-1]
                 IN f[n]
@@ -92,8 +103,8 @@ WellFormed(p, api) ==
                                                              \* then has the Ritz value 0 and ARPACK's purification
                                                              \* divides by it (NaN mode observed)
             /\ Cardinality({ i \in 1..NSp(p) : RIsZero(p.sp[i]) }) >= Cardinality(Act(p) \ Both(p))
-       ELSE /\ Act(p) = Both(p)
-            /\ \A i \in 1..NSp(p) : RSign(p.sp[i]) > 0                      \* K, M positive definite on the active part
+       ELSE /\ \A i \in 1..NSp(p) : RSign(p.sp[i]) >= 0                     \* K positive definite, M semi-definite there
+            /\ Cardinality({ i \in 1..NSp(p) : RIsZero(p.sp[i]) }) >= Cardinality(Act(p) \ Both(p))
 
 (* regime of C05's ordering / agreement / scaling clauses *)
 Negs(p) == { i \in 1..NSp(p) : RSign(Mu(p, i)) < 0 }          \* positive load multipliers
@@ -126,13 +137,21 @@ DoChooseK(s) ==
               !.pc = IF IsLb(s.o.api) /\ s.o.sparse THEN "try" ELSE "remove"]
 
 (* ------------------------------ TrySparse ------------------------------ *)
-(* first eigsh on the full matrices: splu(KG - K) fails iff a null row/column exists, ARPACK refuses k >= n
-   (today, Panel.lb / ConeCyl.lb); either exception is swallowed by `except Exception` and the fallback is taken *)
+(* first eigsh on the full matrices: splu(KG - K) fails iff a row/column is null in BOTH matrices, ARPACK refuses
+   k >= n (today, Panel.lb / ConeCyl.lb); either exception is swallowed by `except Exception` and the fallback is
+   taken.  The literal wrapper reduces whenever some amplitude carries no stiffness.  Today, with load columns on
+   stiffness-less amplitudes and no amplitude null in both, KG - K is regular and ARPACK runs on the full pair
+   with the singular K as its inner product: whatever comes back (observed: non-eigenpairs that change from call
+   to call and are non-zero on the stiffness-less amplitudes, or - when ARPACK happens to raise - the fallback's
+   correct pairs) is unspecified. *)
 DoTrySparse(s) ==
     LET n == s.p.n
         all == AscSeq(1..n, n)
         refused == s.o.api \in {"panel_lb", "conecyl_lb"} /\ D(s, KF_C05_PanelNumNotCapped) /\ s.k >= n
-    IN IF Act(s.p) # 1..n \/ refused
+        semidef == Nulls(s.p) = {} /\ BOnly(s.p) # {} /\ D(s, KF_C05_LoadOnStiffnessless)
+    IN IF semidef /\ ~refused
+       THEN [s EXCEPT !.used = all, !.rrows = all, !.unspec = TRUE, !.pc = "solve"]
+       ELSE IF Act(s.p) # 1..n \/ refused
        THEN [s EXCEPT !.path = "sparseFallback", !.pc = "remove"]
        ELSE [s EXCEPT !.used = all, !.rrows = all, !.pc = "solve"]
 
@@ -140,11 +159,15 @@ DoTrySparse(s) ==
 (* remove_null_cols(K, B): columns of the FIRST matrix (K) with a stored non-zero; dense freq: M.sum(axis=0) != 0 *)
 WhichMatrix(s) == IF s.o.api \in FreqApis /\ ~s.o.sparse THEN "B" ELSE "K"
 DoRemoveNull(s) ==
-    LET \* today the dense frequency path keeps the amplitudes with M.sum(axis=0) != 0: a mass column that sums
-        \* to zero is taken for a null one and the amplitude is clamped (the pairs are then not those of (K, M))
-        lost == IF WhichMatrix(s) = "B" /\ D(s, KF_C06_DenseColumnSum) THEN s.p.zs ELSE {}
-        u == AscSeq((IF WhichMatrix(s) = "K" THEN Act(s.p) ELSE Both(s.p)) \ lost, s.p.n)
-    IN [s EXCEPT !.used = u, !.rrows = u, !.unspec = lost # {}, !.pc = IF ReducedRun(s) THEN "take" ELSE "solve"]
+    LET \* today the dense frequency path keeps the amplitudes with M.sum(axis=0) != 0 instead of those carrying
+        \* stiffness: a mass column that sums to zero is taken for a null one, a massless stiff amplitude is clamped
+        \* instead of condensed, a mass-only amplitude is kept (singular K); whenever that set differs from the
+        \* stiffness-carrying one the pairs handed back are not those of the reduced (K, M)
+        today == WhichMatrix(s) = "B" /\ D(s, KF_C06_DenseColumnSum)
+        keep == IF today THEN BAct(s.p) \ s.p.zs ELSE Act(s.p)
+        u == AscSeq(keep, s.p.n)
+    IN [s EXCEPT !.used = u, !.rrows = u, !.unspec = (keep # Act(s.p)),
+                 !.pc = IF ReducedRun(s) THEN "take" ELSE "solve"]
 
 (* -------------------------------- TakeVW ------------------------------- *)
 (* reduced_dof: take = column_stack((i[1::3], i[2::3])).flatten(): the 2nd and 3rd amplitude of every triple *)
@@ -247,8 +270,8 @@ DoSolve(s, ret) ==
        ELSE IF (sv = "eigsh" /\ kk >= m) \/ (sv = "eigs" /\ kk >= m - 1) THEN Raise(s, "TypeError", "SolveReduced")
        ELSE LET \* ConeCyl.lb, fallback: a failed Cayley run is retried with mode='buckling', which needs A = KG positive
                 \* definite; with an indefinite KG the pairs handed back are not eigenpairs (ids 0 = unspecified)
-                garbage == /\ D(s, KF_C05_ConeCylBucklingMode) /\ s.o.api = "conecyl_lb"
-                           /\ s.path = "sparseFallback" /\ ~SelectionAssumed(s.p)
+                \* (also reached without null rows: the first run's ArpackNoConvergence is swallowed like a singular factor)
+                garbage == /\ D(s, KF_C05_ConeCylBucklingMode) /\ s.o.api = "conecyl_lb" /\ ~SelectionAssumed(s.p)
                 ids == IF SpectrumKnown(s) /\ ~garbage /\ ~s.unspec THEN ret ELSE Ev([j \in 1..(IF sv \in {"eigsh","eigs"} THEN kk ELSE m) |-> 0])
             IN IF s.path = "sparse" /\ IsLb(s.o.api)
                THEN [s EXCEPT !.ret = ids, !.vals = Ev([j \in 1..Len(ids) |-> [id |-> ids[j], form |-> FirstForm(s)]]),
@@ -402,8 +425,9 @@ NPos(p) == Cardinality(Negs(p))
 
 (* returned modes are zero off the active amplitudes, and every active amplitude got its own component back *)
 ZeroOffActive(s) ==
-    Finished(s) => /\ \A r \in 1..s.vec.nr : s.vec.src[r] # 0 => s.vec.src[r] = r /\ (r - s.o.pos) \in Act(s.p)
-                   /\ ~ReducedRun(s) => \A a \in Act(s.p) : s.vec.src[a + s.o.pos] = a + s.o.pos \/ (s.unspec /\ a \in s.p.zs)
+    (Finished(s) /\ ~s.unspec) =>
+                   /\ \A r \in 1..s.vec.nr : s.vec.src[r] # 0 => s.vec.src[r] = r /\ (r - s.o.pos) \in Act(s.p)
+                   /\ ~ReducedRun(s) => \A a \in Act(s.p) : s.vec.src[a + s.o.pos] = a + s.o.pos
                    /\ ReducedRun(s) => \A j \in 1..Len(s.rrows) : s.vec.src[s.rrows[j]] = s.rrows[j]
 (* value c and column c belong to the same eigenpair, and the value has been fully transformed *)
 Pairing(s) ==
@@ -428,7 +452,7 @@ LbOrder(s) == (Finished(s) /\ IsLb(s.o.api) /\ Regime(s.p) /\ Known(s)) =>
 (* C06 ordering clause, demanded when sort is requested: omega > 0 ascending  (mu > 0 descending) *)
 Collision(p) == LET keys == Ev([i \in 1..NSp(p) |-> RoundKey(Mu(p, i))])      \* sp ascending => keys monotone
                 IN \E i \in 1..(NSp(p)-1) : keys[i] = keys[i+1] /\ Mu(p, i) # Mu(p, i+1)
-FreqAscending(p, ids) == /\ \A c \in 1..Len(ids) : RSign(Mu(p, ids[c])) > 0
+FreqAscending(p, ids) == /\ \A c \in 1..Len(ids) : RSign(Mu(p, ids[c])) >= 0        \* mu = 0: omega = +infinity, last
                          /\ \A c \in 1..(Len(ids)-1) : RLe(Mu(p, ids[c+1]), RMul(OnePlusSlack, Mu(p, ids[c])))
 FreqKeysSorted(p, ids) == \A c \in 1..(Len(ids)-1) : RoundKey(Mu(p, ids[c])) <= RoundKey(Mu(p, ids[c+1]))
 FreqOrder(s) == (Finished(s) /\ s.o.api \in FreqApis /\ s.o.sort /\ Known(s)) =>
